@@ -248,12 +248,17 @@ class SRTM30:
             and longitude coordinates of the SRTM30 data points within the
             given rectangle.
         """
+        # Row r (counted from 90 N) is centred at 90 - (r + 0.5) * dlat and
+        # corresponds to index r + 1 in the expression below: the first row
+        # is the one containing lat_max (the one south of it if lat_max lies
+        # on a cell boundary), the last row the one containing lat_min (the
+        # one north of it if lat_min lies on a cell boundary).
         i = (90 - lat_max) / SRTM30._dlat
-        i_max = np.trunc(i)
-        if not i_max < i:
-            i_max = i_max + 1
+        i_max = np.trunc(i) + 1
         i = (90 - lat_min) / SRTM30._dlat
         i_min = np.trunc(i)
+        if i_min < i:
+            i_min = i_min + 1
         lat_grid = 90 + 0.5 * SRTM30._dlat - np.arange(i_max, i_min + 1) * SRTM30._dlat
 
         j = (lon_max + 180) / SRTM30._dlon
